@@ -637,7 +637,17 @@ func (x *Exec) doReturn(st *State, vals []Value) {
 	defs := st.defers[d]
 	st.defers[d] = nil
 	for i := len(defs) - 1; i >= 0; i-- {
-		x.runDeferred(defs[i], st)
+		if defs[i].cond != nil {
+			// registered on some paths only: run it exactly on those
+			s1, s2 := st.clone(), st.clone()
+			x.addPC(s1, *defs[i].cond)
+			x.addPC(s2, tNot(*defs[i].cond))
+			s1.defers[d], s2.defers[d] = nil, nil
+			x.runDeferred(defs[i], s1)
+			st.set(x.merge(s1, s2))
+		} else {
+			x.runDeferred(defs[i], st)
+		}
 		if st.dead {
 			break
 		}
